@@ -98,7 +98,15 @@ class SymbolicDraws(Draws):
         with NoTracing():
             # built directly: proxy_for_type() may "prematurely realize" (a CrossHair
             # search heuristic) and hand back a concrete value
-            return SymbolicBoundedInt(self._name(name), int, lo, hi)
+            clo = lo if type(lo) is int else None
+            chi = hi if type(hi) is int else None
+            v = SymbolicBoundedInt(self._name(name), int, clo, chi)
+            space = context_statespace()
+            if clo is None:         # a bound that is itself symbolic
+                space.add(v.var >= lo.var)
+            if chi is None:
+                space.add(v.var <= hi.var)
+            return v
 
     def _bool(self, name):
         with NoTracing():
